@@ -46,25 +46,27 @@ CHECKS = {
   ],
  },
  "C09": {
-  "engine": "E-HIST",
+  "engine": "E-HIST+E-SCHED",
   "rule": "breadth-first search over sequences of part receptions on the real stage.Stage (+ real receive log) in virtual time; after every step the partial listing, every 'did you receive' answer and the completion state are compared with the bytes actually on disk and with the list of acknowledged parts; states deduplicated on sandbox listing + private stage state + reference model; non-trivial = at least two parts",
-  "level": "Every sequence of parts within the bounds is executed on the real Stage; every claim the receiver makes (listing, received-answers, completion) is checked against the staged bytes in every state.",
-  "note": "Bounds: one 8-byte file, 10 intervals, sequences of <=4 (quick) / <=5 (thorough) parts, version changes (hash, size), readers that end one byte early. Concurrent receptions: E-SCHED part.",
-  "technique": "explicit-state breadth-first search over operation histories on the implementation in virtual time, reference-model oracle",
+  "level": "Every sequence of parts within the bounds is executed on the real Stage and every claim the receiver makes (listing, received-answers, completion) is checked against the staged bytes in every state; concurrent receptions: every interleaving of lock operations, file-system mutations and goroutine starts up to the preemption bound is executed under a controlled scheduler.",
+  "note": "Bounds: one 8-byte file, 10 intervals, sequences of <=4 (quick) / <=5 (thorough) parts, version changes (hash, size), readers that end one byte early. E-SCHED: see coverage.parts[].bound; unsynchronised memory accesses are outside the scheduler's view.",
+  "technique": "explicit-state breadth-first search over operation histories + stateless preemption-bounded exploration of goroutine interleavings (controlled scheduler), both on the implementation in virtual time",
   "assumptions": ["file contents use pairwise different bytes per position and version, so equal bytes mean received bytes"],
   "parts": [
     {"pkg": "./stage", "test": "TestC09", "shards": {"quick": 16, "thorough": 16}},
+    {"pkg": "./stage", "test": "TestC09Sched", "shards": {"quick": 16, "thorough": 16}},
   ],
  },
  "C01": {
-  "engine": "E-HIST",
+  "engine": "E-HIST+E-SCHED",
   "rule": "breadth-first search over action histories on the real stage.Stage + real receive log in virtual time (replay-from-scratch successors); the harness consumes the final directory after every step and checks every arrival against the versions announced so far and the receive log; states deduplicated on sandbox listing + private stage state; non-trivial = at least two part receptions",
   "level": "Every history within the bounds is executed on the real Stage; the property's invariant is evaluated in every reached state.",
   "note": "Bounds: see coverage.parts[].bound. Goroutine interleavings inside the stage are the Go runtime's single-P schedule (E-SCHED part covers concurrent connections); corruption of a .wait body after validation is outside the property's list of corruptions.",
-  "technique": "explicit-state breadth-first search over operation histories on the implementation in virtual time, invariant oracle",
+  "technique": "explicit-state breadth-first search over operation histories + stateless preemption-bounded exploration of goroutine interleavings (controlled scheduler), both on the implementation in virtual time",
   "assumptions": ["single-P deterministic schedule between harness actions", "process death modelled as loss of all in-memory state with the directory tree as of a completed system call"],
   "parts": [
     {"pkg": "./stage", "test": "TestC01", "shards": {"quick": 16, "thorough": 16}},
+    {"pkg": "./stage", "test": "TestC01Sched", "shards": {"quick": 16, "thorough": 16}},
   ],
  },
  "C05": {
